@@ -2,7 +2,7 @@
    byte and spec_float stay extracted inductives. *)
 From Coq Require Import ExtrOcamlBasic.
 From Coq Require Import List ZArith Strings.Byte Floats.SpecFloat.
-From Ugo Require Import Base.Res Base.GoInt Base.GoFloat Value.PValue Value.Ops Conv.GoValue Skel.Skel Byte.Instr Byte.V1Conv Codec.Varint Codec.Obj Comp.SymTab Comp.Fold Byte.Wf VM.CallBinding Comp.ModStore Pos.LineTable.
+From Ugo Require Import Base.Res Base.GoInt Base.GoFloat Value.PValue Value.Ops Conv.GoValue Skel.Skel Byte.Instr Byte.V1Conv Codec.Varint Codec.Obj Comp.SymTab Comp.Fold Byte.Wf VM.CallBinding Comp.ModStore Pos.LineTable Json.Json.
 Definition byte_to_N := Byte.to_N.
 Definition byte_of_N := Byte.of_N.
 Extraction "ugomodel.ml"
@@ -18,4 +18,5 @@ Extraction "ugomodel.ml"
   wf_function
   call_compiled init_locals
   loads_ok
-  unpack shift_lines.
+  unpack shift_lines
+  json_valid encode_string.
